@@ -154,7 +154,8 @@ def run(ctx):
     ctx.stubs.append('Brownian motion: deterministic stub keyed by the queried interval')
     ctx.bounds = {'forward identity': 'every accepted (sde_type, method, noise_type, grad_free), 2 steps + interpolated output, d=2',
                   'exact case': 'd<=2, m<=2, 2-3 output times on the grid, arbitrary loss weights', 'gradient structure': 'default adjoint method per (sde_type, noise_type) + reversible Heun'}
-    ctx.assumptions += ['gradient convergence as dt->0 is reduced to: adjoint vector fields exact (C11), reverse path identical (C03/C05), '
+    ctx.fn('AdjointSDE.f_uncorrected / f_corrected_default / f_corrected_diagonal / g_prod / f_and_g_prod_* / g_prod_and_gdg_prod_diagonal (lemma)')
+    ctx.assumptions += ['gradient convergence as dt->0 is reduced to: adjoint vector fields exact (lemma, discharged here with the C11 obligations), reverse path identical (C03/C05), '
                         'order of the adjoint solver on the adjoint SDE (C02 machinery), Milstein fundamental theorem (trusted)']
     ctx.outside += ['the dt -> 0 limit itself', 'closed-form gradient comparisons at finite dt (they agree only to O(dt^p))']
     T1 = e1.all_forward_configs()
@@ -210,9 +211,16 @@ def run(ctx):
             ctx.inconc(name, n); continue
         ctx.violation(f"exact-affine|{n.split('[')[0]}", f"adjoint gradient {n} differs from backprop in the exactly solvable case", replay=dict(kind='exact', task=list(t)))
     ctx.twin('twin: adjoint == backprop + 1 must fail', tw == len(T3))
+    # lemma the convergence argument rests on: the adjoint SDE's vector fields are the prescribed ones (same obligations as C11,
+    # discharged here too so that this check does not depend on another check having been run)
+    from . import c11
+    c11.check_fields(ctx, prefix='lemma adjoint-fields: ', sig_prefix='adjoint-fields|', extra=dict(kind='fields'))
 
 
 def replay(data):
+    if data['replay'].get('kind') == 'fields':
+        from . import c11
+        return c11.replay(data)
     import torchsde
     r = data['replay']
     if r['kind'] == 'fwd':
